@@ -223,8 +223,8 @@ def neutralise_cont(text):
 
 
 def drop_final_cont(text):
-    """The text with its last line continuation replaced by a space if only blanks and newlines follow that continuation
-    (the statement is continued onto an empty rest of the file); None otherwise."""
+    """The text with its last line continuation replaced by a space if only blanks, newlines and comments follow that
+    continuation (the statement is continued onto a rest of the file that holds no token); None otherwise."""
     last = None
     i = 0
     for m in reflang._TOK.finditer(text):
@@ -233,7 +233,7 @@ def drop_final_cont(text):
         i = m.end()
         if m.lastgroup == 'cont':
             last = m
-        elif m.lastgroup not in ('ws', 'nl'):
+        elif m.lastgroup not in ('ws', 'nl', 'comment'):
             last = None
     if last is None or i != len(text):
         return None
@@ -486,8 +486,8 @@ def idem_causes(src, cfg, out=''):
     causes = []
     if drop_final_cont(src) is not None:
         causes.append(('continuation-before-end-of-file',
-                       'a statement continued (backslash-newline) onto an empty rest of the file gains one more blank line with '
-                       'every format run',
+                       'a statement continued (backslash-newline) onto a rest of the file that holds no token (nothing, blank lines, '
+                       'comments) gains one more blank line with every format run',
                        lambda s, c: (drop_final_cont(s), c)))
     if has_cont_in_brackets(src):
         causes.append(('continuation-in-brackets',
